@@ -239,18 +239,8 @@ def _run(sub, doc, ops, acc, record=True):
     from jsonpath import JSONPatch
 
     snap = deep_copy(ops)
-    # addap onto a token that is not an array index at all ('01', 'x'): the documentation only speaks of an
-    # index that cannot be resolved; whether a non-index token counts is not stated, so it is not generated.
-    cur = doc
-    for op in ops:
-        if op["op"] == "addap" and c05._target_class(cur, rptr.parse(op["path"])) == "array.noncanonical":
-            if record:
-                acc.count("skipped.addap-noncanonical")
-            return
-        try:
-            cur = rpatch.apply_op(deep_copy(cur), op)
-        except rpatch.PatchError:
-            break
+    # (addap onto a token that is not an array index at all - '01', 'x', '#0' - has no index to "fail to resolve": the
+    # reference treats it as add, i.e. an error)
     try:
         exp = ("doc", rpatch.apply(doc, ops))
     except rpatch.TestFailure:
